@@ -520,6 +520,21 @@ def run(ctx):
                         okk = tr_ == [] and sym_arg(strip_sym(sym_through(v_, "Into::into", "From::from", "Option<T>::map"))) is not None or sym_arg(strip_sym(v_)) is not None
                         chk.ob("C18.d", f"{nhl.path} [allowlist kept as given]", okk, "the exporter's allowlist is the parameter unchanged" if okk else f"the listener stores {sym_str(v_)[:80]} instead of the list it was given: listed networks can be dropped, and a list that ends up empty is treated as `no allowlist` — every peer is served", f"{nhl.file}:{st.get('ln')}", nontrivial=False)
 
+    # "a GET on any path": the connection builder is not given a limit that rejects well-formed requests (a cap on the read
+    # buffer or on the header count turns a long path / many headers into 431 instead of the rendering)
+    LIMITS = ("max_buf_size", "max_headers")
+    caps = []
+    for f_ in p.fns:
+        if "exporter::http_listener" not in f_.path or "::tests::" in f_.path:
+            continue
+        if f_.hir:
+            from facts import walk as _w
+
+            caps += [(f_, n) for n in _w(f_.hir) if n.get("k") == "MethodCall" and n.get("name") in LIMITS and "hyper" in (n.get("def") or n.get("resolved") or "")]
+        elif f_.j.get("mir"):
+            caps += [(f_, {"ln": c.line, "name": callee_method_name(c)}) for c in f_.body.calls() if callee_method_name(c) in LIMITS and "hyper" in (c.resolved or "")]
+    chk.ob("C18.a", "http_listener [no request-size limit on the connection]", not caps, "the HTTP/1 connection builder is used with hyper's own limits" if not caps else f"the connection builder is given {caps[0][1].get('name')}(): requests whose head exceeds it (a long path or query, bulky headers) are answered 431 with an empty body instead of 200 with the rendering", f"{caps[0][0].file}:{caps[0][1].get('ln')}" if caps else "metrics-exporter-prometheus/src/exporter/http_listener.rs", nontrivial=False)
+
     # ---------------- C18.c
     aa = one_method(chk, "C18.c", p, PB, "add_allowed_address")
     if aa:
